@@ -20,6 +20,12 @@ build=$(go build ./... 2>&1 | tail -3)
 with=$(go test -vet=off -count=1 -run 'Seed|ZZ' ./$pkgdir 2>&1 | tail -3)
 rm -f $WT/$pkgdir/zz_seed_demo_test.go
 suite=$(go test -vet=off -count=1 ./... 2>&1 | grep -v "^ok\|no test files" | grep -v "TestRunnerRun/#13\(17\|18\|19\|20\|21\)\|--- FAIL: TestRunnerRun (" | grep -E "^(--- FAIL|FAIL|panic)" | head -5)
+# timing-based tests flake under machine load: re-run them alone before counting them
+flaky='TestParseConfirm|TestKillSignal|TestKillTimeout|TestRunnerContext|TestCancelBlockedStdinRead|TestRunnerTerminalStdIO|TestElapsedString'
+if echo "$suite" | grep -qE "$flaky"; then
+  rer=$(go test -vet=off -count=1 -run "$flaky" ./syntax ./interp 2>&1 | grep -E "^(--- FAIL|panic)" | head -3)
+  if [ -z "$rer" ]; then suite=$(echo "$suite" | grep -vE "$flaky" | grep -v "^FAIL	mvdan.cc/sh/v3/syntax"); echo "(flaky tests passed on re-run)"; fi
+fi
 git checkout -q -- .
 mv /tmp/SEED-$P-$$ $WT/SEED
 S=$WT/SEED/$K
